@@ -168,6 +168,7 @@ class Tail:
         self.cellstores = []     # (container, index text, scalar value, node)
         self.same_size = {}      # vector -> extents known to equal its size (from its allocation)
         self.partial = []        # (container, where, how) updates that provably touch only part of a container
+        self.linestores = []     # (local matrix, 'row'|'col', index, source vector, its value, extent, node)
         self.thresholds = []     # (where, text, literal) magnitude tests that send a non-null component down the null-component branch
         self.ignore_out = None
         self.params, self.pnames = set(), [p['name'] for p in f.params]
@@ -187,6 +188,7 @@ class Tail:
         t.same_size = self.same_size
         t.partial = list(self.partial)
         t.thresholds = list(self.thresholds)
+        t.linestores = list(self.linestores)
         t.path = list(getattr(self, 'path', []))
         t.imprecise = getattr(self, 'imprecise', False)
         return t
@@ -197,6 +199,15 @@ class Tail:
             e = strip(kids(e)[0])
         if e.get('kind') == 'DeclRefExpr':
             return e['referencedDecl'].get('name')
+        if e.get('kind') == 'ArraySubscriptExpr':
+            b = strip(kids(e)[0])
+            if b.get('kind') == 'MemberExpr' and b.get('name') == 'm':
+                # block k of a tensor:  X->m[k]  is named  X[k]  (the cell-form extractor names its cells  X[k, i, j])
+                base = self.f.unit.text(kids(b)[0]).replace(' ', '')
+                for i_, pn_ in enumerate(self.pnames):
+                    if base == pn_ or base.startswith(pn_ + '->'):
+                        base = '$%d' % i_ + base[len(pn_):]
+                return '%s[%s]' % (base, self.f.unit.text(kids(e)[1]).replace(' ', ''))
         raise NotUnderstood('argument %s' % self.f.unit.text(e)[:40])
 
     def v(self, name):
@@ -250,9 +261,10 @@ class Tail:
     def prod(self, M, u, transposed):
         r = {}
         for key, c in M.items():
-            if key[0] == 'M':
+            if key[0] in ('M', 'Mt'):
+                tr = transposed != (key[0] == 'Mt')
                 for b, cb in u.items():
-                    r = vadd(r, {'%s%s*%s' % (key[1], "'" if transposed else '', b): ONE}, c * cb)
+                    r = vadd(r, {'%s%s*%s' % (key[1], "'" if tr else '', b): ONE}, c * cb)
             else:
                 _, A_, B_ = key
                 left, right = (A_, B_) if transposed else (B_, A_)        # (A B')' u = B <A,u>;   (A B') u = A <B,u>
@@ -263,6 +275,16 @@ class Tail:
         cn = callee_name(n)
         a = call_args(n)
         if cn in ('DelMatrix', 'DelDVector', 'printf', 'puts', 'PrintMatrix', 'PrintDVector', 'fprintf'):
+            return
+        if cn == 'NewDVector' and len(a) == 2:
+            self.vec[self.nm(a[0])] = {}                       # allocated zero-filled
+            self.same_size.setdefault(self.nm(a[0]), set()).add(self.f.unit.text(a[1]).replace(' ', ''))
+            return
+        if cn == 'MatrixTranspose' and len(a) == 2:
+            src_ = self.mat.get(self.nm(a[0]))
+            if src_ is None:
+                raise NotUnderstood('matrix %s has no tracked value' % self.nm(a[0]))
+            self.mat[self.nm(a[1])] = {({'M': 'Mt', 'Mt': 'M'}[k_[0]], k_[1]) if k_[0] in ('M', 'Mt') else ('outer', k_[2], k_[1]): c_ for k_, c_ in src_.items()}
             return
         if cn in ('DVectorMatrixDotProduct', 'MT_DVectorMatrixDotProduct') and len(a) == 3:
             M, u, o = self.mat.get(self.nm(a[0])), self.v(self.nm(a[1])), self.nm(a[2])
@@ -309,11 +331,35 @@ class Tail:
             return
         raise NotUnderstood('call to %s' % cn)
 
+    def fibre(self, at, var):
+        """the vector a cell atom stands for when `var` runs:  L:v[var]  is the local vector v;  P[..][var][c]  (or P[var][c]) is the fibre of a
+        container the routine reads -- the value stored into it earlier on this path if there is one (store-to-load forwarding), else an opaque base vector"""
+        if at.startswith('L:') and at.count('[') == 1 and at.endswith('[%s]' % var):
+            return self.v(at[2:].split('[')[0])
+        if at.startswith('L:'):
+            raise NotUnderstood('vector factor %s' % at)
+        parts = at.split('[')
+        base, idxs = parts[0], [x[:-1] for x in parts[1:]]
+        if idxs.count(var) != 1 or any('@' in x and x != var for x in idxs):
+            raise NotUnderstood('vector factor %s' % at)
+        pos = idxs.index(var)
+        if pos == len(idxs) - 2:
+            cont = base + ''.join('[%s]' % x for x in idxs[:pos])
+            for arr, col, src, val, ext, node in self.colstores[::-1]:
+                if arr == cont and col == idxs[-1]:
+                    return dict(val)
+            return {'%s[:,%s]' % (cont, idxs[-1]): ONE}
+        raise NotUnderstood('vector factor %s' % at)
+
     def covered(self, l, extents, what, lp):
         """loop (var, lo, hi, step) against the accepted extent expressions: full -> True; provably short of it (starts after 0, stops a constant
         before the end) -> recorded in self.partial, the caller reports it; anything else is not understood"""
         var, lo, hi, step = l[:4]
-        full = str(lo) == '0' and step == 1 and str(hi) in extents
+        his = str(hi)
+        for i_, pn_ in enumerate(self.pnames):
+            if his.startswith('$%d->' % i_):
+                his = pn_ + his[len('$%d' % i_):]           # the extractor writes parameters as $k
+        full = str(lo) == '0' and step == 1 and (str(hi) in extents or his in extents)
         if full:
             return True
         short = None
@@ -342,7 +388,29 @@ class Tail:
             raise NotUnderstood('loop at %s: %s' % (self.f.unit.where(lp), e))
         for c in ex.contribs:
             arr = c.out[0]
-            name = arr[2:] if arr.startswith('L:') else self.pnames[int(arr[1:])] if arr.startswith('$') and '->' not in arr else None
+            ext_name = None
+            if len(c.out[1]) == 3 and not str(c.out[1][0]).startswith('@'):
+                # a cell of block k of a tensor:  T[k, i, j]  is cell [i, j] of the matrix named  T[k]
+                ext_name = '%s->m[%s]' % (arr[2:] if arr.startswith('L:') else arr, c.out[1][0])
+                arr = '%s[%s]' % (arr, c.out[1][0])
+                c.out = (arr, list(c.out[1][1:]))
+            name = arr[2:] if arr.startswith('L:') else self.pnames[int(arr[1:])] if arr.startswith('$') and '->' not in arr and '[' not in arr else None
+            oi_ = [str(x) for x in c.out[1]]
+            lvs_ = {l[0]: l for l in c.loops}
+            if name is not None and name in self.mat and c.mode == '=' and len(oi_) == 2 and sum(1 for x in oi_ if x in lvs_) == 1 and \
+                    len(c.term.atoms()) == 1 and c.term.d == Poly.const(1):
+                # one row or one column of a local matrix is filled from a vector:  M[k][i] = v[i]  /  M[i][k] = v[i]
+                at_ = list(c.term.atoms())[0]
+                run_ = [x for x in oi_ if x in lvs_][0]
+                fixed_ = [x for x in oi_ if x not in lvs_][0]
+                if c.term.n == Poly.atom(at_) and at_.startswith('L:') and at_.count('[') == 1 and at_.endswith('[%s]' % run_) and \
+                        str(lvs_[run_][1]) == '0' and lvs_[run_][3] == 1:
+                    src_ = at_[2:].split('[')[0]
+                    kind_ = 'row' if oi_[0] == fixed_ else 'col'
+                    self.linestores.append((name, kind_, fixed_, src_, dict(self.v(src_)), str(lvs_[run_][2]), c.node))
+                    self.mat[name] = {('M', name): ONE}        # from here on an opaque matrix whose rows / columns are the recorded vectors
+                    continue
+                raise NotUnderstood('store into %s: %r' % (arr, c))
             if name is None or (name not in self.vec and name not in self.mat):
                 # a column of a result container:  OUT[i][c] = v[i]  for every i
                 oi = [str(x) for x in c.out[1]]
@@ -387,7 +455,7 @@ class Tail:
                 if idx[0] not in lv:
                     raise NotUnderstood('loop at %s does not cover the whole of %s' % (self.f.unit.where(lp), name))
                 self.covered(lv[idx[0]], ('%s->size' % name,) + tuple(self.same_size.get(name, ())), name, lp)
-                if any(not at.startswith('S:') for at in c.term.atoms()) or c.mode not in ('*=', '/='):
+                if any(not at.startswith('S:') and ('@' in at or at.startswith('L:')) for at in c.term.atoms()) or c.mode not in ('*=', '/='):
                     raise NotUnderstood('vector update %r' % c)
                 s = rsubst(c.term, smap)
                 if s.is_zero():
@@ -398,26 +466,24 @@ class Tail:
                 # rank-one update  M[i][j] += s * a[i] * b[j]
                 if any(i not in lv for i in idx):
                     raise NotUnderstood('loop at %s does not cover the whole of %s' % (self.f.unit.where(lp), name))
-                self.covered(lv[idx[0]], ('%s->row' % name,), name, lp)
-                self.covered(lv[idx[1]], ('%s->col' % name,), name, lp)
-                cells = [at for at in c.term.atoms() if not at.startswith('S:')]
+                self.covered(lv[idx[0]], ('%s->row' % (ext_name or name),), name, lp)
+                self.covered(lv[idx[1]], ('%s->col' % (ext_name or name),), name, lp)
+                cells = [at for at in c.term.atoms() if not at.startswith('S:') and '@' in at]
                 if len(cells) != 2 or c.term.d.atoms() - set(smap):
                     raise NotUnderstood('matrix update %r' % c)
-                rowv = [at for at in cells if at.endswith('[%s]' % idx[0])]
-                colv = [at for at in cells if at.endswith('[%s]' % idx[1])]
-                if len(rowv) != 1 or len(colv) != 1 or rowv[0].count('[') != 1 or colv[0].count('[') != 1:
+                rowv = [at for at in cells if ('[%s]' % idx[0]) in at and ('[%s]' % idx[1]) not in at]
+                colv = [at for at in cells if ('[%s]' % idx[1]) in at and ('[%s]' % idx[0]) not in at]
+                if len(rowv) != 1 or len(colv) != 1:
                     raise NotUnderstood('matrix update %r' % c)
                 co = c.term.n.coeff(rowv[0])
                 co = co.coeff(colv[0]) if co is not None else None
                 if co is None or (Poly.atom(rowv[0]) * Poly.atom(colv[0]) * co) != c.term.n:
                     raise NotUnderstood('matrix update %r' % c)
                 s = rsubst(Rat(co, c.term.d), smap)
-                a_, b_ = rowv[0].split('[')[0], colv[0].split('[')[0]
-                if not (a_.startswith('L:') and b_.startswith('L:')):
-                    raise NotUnderstood('matrix update %r' % c)
+                va_, vb_ = self.fibre(rowv[0], idx[0]), self.fibre(colv[0], idx[1])
                 M = dict(self.mat[name])
-                for ba, ca in self.v(a_[2:]).items():
-                    for bb, cb in self.v(b_[2:]).items():
+                for ba, ca in va_.items():
+                    for bb, cb in vb_.items():
                         key = ('outer', ba, bb)
                         x = M.get(key, ZERO) + s * ca * cb
                         if x.is_zero():
